@@ -150,7 +150,7 @@ func (l *localExecutor) Reader(task *Task, partition int) sliceio.ReadCloser {
 	l.mu.Unlock()
 	if !ok {
 		return sliceio.ReaderWithCloseFunc{
-			Reader:    sliceio.ErrReader(fmt.Errorf("no data for %v", task)),
+			Reader:    sliceio.ErrReader(fmt.Errorf("no data for task %v", task.Name)),
 			CloseFunc: func() error { return nil },
 		}
 	}
